@@ -36,7 +36,8 @@ def main(argv):
             rc = 3
             continue
         obs = res["obligations"] + res["covers"]
-        summ = discharge(obs)
+        summ = discharge(res["obligations"])
+        discharge(res["covers"], use_cvc5=False, z3_timeout=3000)
         bad = [o for o in obs if (o.expect == "unsat" and o.verdict != "unsat") or (o.expect == "sat" and o.verdict == "unsat")]
         print(f"== {k}: {res['status']} {res['reason']} obligations={len(res['obligations'])} covers={len(res['covers'])} "
               f"failed={len(bad)} gen={res['time']:.2f}s solve={summ['wall']:.2f}s paths={res['paths']} checks={res.get('solver_checks')}")
